@@ -46,6 +46,23 @@ fn check_line(st: &mut Stats, line: &Value) -> Vec<String> {
         }
         return d;
     }
+    if let Some(seq) = line.get("seq") {
+        // a call SEQUENCE on this thread: every call returns Parse(text), whatever was parsed before
+        let mut trail = vec![];
+        for c in arr(seq) {
+            st.evaluations += 1;
+            let text = text_of(&c["text"]);
+            let want = c["value"].as_i64().unwrap();
+            let want = if want < 0 { None } else { Some(want as u32) };
+            match parse(&text) {
+                Err(p) => d.push(format!("HpoTermId::try_from({:?}) panicked after the calls {:?}: {p}", text, trail)),
+                Ok(got) if got != want => d.push(format!("HpoTermId::try_from({:?}) = {:?} after the calls {:?}, expected {:?} (the result must not depend on earlier calls)", text, got, trail, want)),
+                _ => {}
+            }
+            trail.push(text);
+        }
+        return d;
+    }
     st.evaluations += 1;
     let text = text_of(&line["text"]);
     let want = line["value"].as_i64().unwrap();
@@ -89,6 +106,36 @@ fn big_cases(st: &mut Stats) -> Vec<String> {
         ("é".repeat(300), None),
         (format!("HP:{}", "9".repeat(200)), None),
     ];
+    // beyond TLC's integers: digit strings whose value is congruent to a small number modulo 2^32, 2^64 or 2^128
+    // (an accumulator that wraps around instead of failing would accept them)
+    let mut cases = cases;
+    for modulus in [1u128 << 32, 1u128 << 64, u128::MAX / 2 + 1] {
+        for m in [1u128, 2, 3, 10, 1000] {
+            for small in [0u128, 1, 5, 118, 9_999_999] {
+                if let Some(v) = modulus.checked_mul(m).and_then(|x| x.checked_add(small)) {
+                    cases.push((format!("HP:{v}"), None));
+                    cases.push((format!("HP:000{v}"), None));
+                }
+            }
+        }
+    }
+    // 2^128 + small and 2^256 + small as decimal strings
+    for small in ["0", "1", "5", "118"] {
+        let p128 = "340282366920938463463374607431768211456";
+        let p256 = "115792089237316195423570985008687907853269984665640564039457584007913129639936";
+        for p in [p128, p256] {
+            let mut digits: Vec<u8> = p.bytes().collect();
+            // add the small number to the decimal string (no carry beyond the last three digits for these constants)
+            let add: u32 = small.parse().unwrap();
+            let n = digits.len();
+            let tail: u32 = std::str::from_utf8(&digits[n - 3..]).unwrap().parse().unwrap();
+            let new_tail = format!("{:03}", tail + add);
+            if new_tail.len() == 3 {
+                digits[n - 3..].copy_from_slice(new_tail.as_bytes());
+                cases.push((format!("HP:{}", String::from_utf8(digits).unwrap()), None));
+            }
+        }
+    }
     for (text, want) in cases {
         st.evaluations += 1;
         match parse(&text) {
@@ -132,7 +179,7 @@ pub fn run(args: &Args) {
     let mut st = Stats::default();
     for (i, l) in lines.iter().enumerate() {
         st.cases += 1;
-        if l.get("ids").is_some() || l["value"].as_i64().unwrap_or(-1) >= 0 || arr(&l["text"]).iter().any(|c| arr(c).len() > 1) {
+        if l.get("ids").is_some() || l.get("seq").is_some() || l["value"].as_i64().unwrap_or(-1) >= 0 || arr(&l["text"]).iter().any(|c| arr(c).len() > 1) {
             st.nontrivial += 1;
         }
         guard_case(&mut st, &prop, "replay-termid", l, |st| {
